@@ -387,13 +387,19 @@ class PreferenceProfile:
             return False
         pp_1 = self.condense_ballots()
         pp_2 = other.condense_ballots()
-        for b in pp_1.ballots:
-            if b not in pp_2.ballots:
-                return False
-        for b in pp_2.ballots:
-            if b not in pp_1.ballots:
-                return False
-        return True
+
+        # compare the weight of every (ranking, scores) content; Ballot equality treats
+        # missing scores as a wildcard and would match an unscored ballot with a scored one
+        def content_weights(profile):
+            return {
+                (
+                    b.ranking,
+                    frozenset(b.scores.items()) if b.scores else None,
+                ): b.weight
+                for b in profile.ballots
+            }
+
+        return content_weights(pp_1) == content_weights(pp_2)
 
     def _sum_row(self, df: pd.DataFrame) -> pd.DataFrame:
         """
